@@ -1,6 +1,8 @@
 package bcheck
 
 import (
+	"strings"
+	"regexp"
 	"bytes"
 	"fmt"
 	"net"
@@ -21,7 +23,7 @@ import (
 func init() {
 	Registry["C16"] = &Check{
 		Scenarios: c16Scenarios,
-		Rule: "complete grid: hop-by-hop and end-to-end ids from {0,1,2^31,2^32-1}^2 x all 256 command flag bytes x every (application, command) of the embedded dictionaries x result code {0 (none asked), 2001, 5012, 2^32-1} through Message.Answer; a second CER on a connection whose handshake has completed (if it is answered, the answer must mirror it); the state machine's success CEA, each failure CEA (5010, 5017, 5012) and DWA for the same id grid over an in-memory transport; the same requests arriving on SCTP streams {0,1,5,15} of the in-memory multistream backend (and on a stream-less transport), answered by a handler through Answer().WriteTo and by the state machine: the backend must record the answer on the request's stream, also when the answer to a request is written later, while a request from another stream is being handled (all 16 stream pairs), also when the first 1 or 2 write attempts of that answer fail with a temporary error and are retried (WriteToWithRetry); and two application goroutines answering requests of different streams concurrently (every schedule up to preemption bound 2, thorough 3), on an association attached with NewConn and on one accepted by a Server with ReadTimeout and WriteTimeout set.",
+		Rule: "complete grid: hop-by-hop and end-to-end ids from {0,1,2^31,2^32-1}^2 x all 256 command flag bytes x every (application, command) of the embedded dictionaries x result code {0 (none asked), 2001, 5012, 2^32-1} through Message.Answer; a second CER on a connection whose handshake has completed (if it is answered, the answer must mirror it); the state machine's success CEA, each failure CEA (5010, 5017, 5012, and 5012 for a CER that cannot be unmarshalled because the connection's dictionary lacks an AVP the CER struct names) and DWA for the same id grid over an in-memory transport; the same requests arriving on SCTP streams {0,1,5,15} of the in-memory multistream backend (and on a stream-less transport), answered by a handler through Answer().WriteTo and by the state machine: the backend must record the answer on the request's stream, also when the answer to a request is written later, while a request from another stream is being handled (all 16 stream pairs), also when the first 1 or 2 write attempts of that answer fail with a temporary error and are retried (WriteToWithRetry); and two application goroutines answering requests of different streams concurrently (every schedule up to preemption bound 2, thorough 3), on an association attached with NewConn and on one accepted by a Server with ReadTimeout and WriteTimeout set.",
 		Assume: []string{"single default schedule per exchange", "in-memory SCTP backend (hook diam/sctp_verif.go)"},
 		QuickBudget: 120, ThoroughBudget: 900,
 	}
@@ -35,7 +37,7 @@ func c16Scenarios(tier string) []*Scenario {
 		i := i
 		out = append(out, &Scenario{Name: fmt.Sprintf("answer-grid/hbh=%#x", c16IDs[i]), Seq: func(r *SeqResult) { c16Grid(r, c16IDs[i]) }})
 	}
-	for _, kind := range []string{"cer-ok", "cer-noapp", "cer-inband", "cer-nohost", "dwr"} {
+	for _, kind := range []string{"cer-ok", "cer-noapp", "cer-inband", "cer-nohost", "dwr", "cer-privdict"} {
 		kind := kind
 		out = append(out, &Scenario{Name: "state-machine/" + kind, Seq: func(r *SeqResult) { c16SM(r, kind) }})
 	}
@@ -140,7 +142,7 @@ func c16Request(kind string, hbh, ee uint32, flags uint8) []byte {
 		return refcodec.EncodeMessage(refcodec.Header{Version: 1, Flags: flags, Code: 257, HbH: hbh, E2E: ee}, avps)
 	}
 	switch kind {
-	case "cer-ok", "cer-nohost":
+	case "cer-ok", "cer-nohost", "cer-privdict":
 		return cer(4)
 	case "cer-noapp":
 		return cer(999)
@@ -152,7 +154,33 @@ func c16Request(kind string, hbh, ee uint32, flags uint8) []byte {
 	panic(kind)
 }
 
-var c16WantRC = map[string]uint32{"cer-ok": 2001, "cer-noapp": 5010, "cer-inband": 5017, "cer-nohost": 5012, "dwr": 2001}
+var c16WantRC = map[string]uint32{"cer-ok": 2001, "cer-noapp": 5010, "cer-inband": 5017, "cer-nohost": 5012, "dwr": 2001, "cer-privdict": 5012}
+
+// c16PrivDict is the base dictionary without the (optional) Inband-Security-Id AVP: a CER read
+// with it cannot be unmarshalled into the state machine's CER struct, which names that AVP - a
+// failure that is none of the parser's own sentinel errors.
+var c16priv *dict.Parser
+
+func c16PrivDict() *dict.Parser {
+	if c16priv == nil {
+		emb, err := refdict.LoadEmbedded(repoRoot())
+		if err != nil {
+			panic(err)
+		}
+		x := emb[0].XML
+		x = regexp.MustCompile(`(?s)<avp name="Inband-Security-Id".*?</avp>`).ReplaceAllString(x, "")
+		x = regexp.MustCompile(`<rule avp="Inband-Security-Id"[^>]*/>`).ReplaceAllString(x, "")
+		p, err := dict.NewParser()
+		if err == nil {
+			err = p.Load(strings.NewReader(x))
+		}
+		if err != nil {
+			panic(err)
+		}
+		c16priv = p
+	}
+	return c16priv
+}
 
 // c16SM: CEA / DWA produced by the state machine mirror the request, on stream-less and
 // multistream transports.
@@ -167,10 +195,14 @@ func c16SM(r *SeqResult, kind string) {
 					s := vs.Run(nil, false, 5*time.Second, false, func() {
 						mach := sm.New(c16Settings())
 						req := c16Request(kind, hbh, ee, flags)
+						dp := dict.Default
+						if kind == "cer-privdict" {
+							dp = c16PrivDict()
+						}
 						if stream < 0 {
 							conn := vnet.NewConn("S")
 							conn.Pieces = 1
-							if _, err := diam.NewConn(conn, "peer", mach, dict.Default); err != nil {
+							if _, err := diam.NewConn(conn, "peer", mach, dp); err != nil {
 								return
 							}
 							p := &Peer{C: conn}
@@ -189,7 +221,7 @@ func c16SM(r *SeqResult, kind string) {
 						}
 						be := vnet.NewSCTP("S")
 						msc := diam.NewSCTPConnBackend(be)
-						if _, err := diam.NewConn(msc, "peer", mach, dict.Default); err != nil {
+						if _, err := diam.NewConn(msc, "peer", mach, dp); err != nil {
 							return
 						}
 						want := 1
